@@ -15,7 +15,7 @@ from .expr import Seq, US
 LIB_ASSUMPTIONS = [
     "python ints are unbounded; bool is 0/1 in arithmetic",
     "datetime/timedelta are integers of microseconds; timedelta/int rounds half-to-even as CPython's _divide_and_round; timedelta/timedelta and all floats are mathematical reals",
-    "dict/list iteration is in insertion order; containers stored in fields are owned by their object (no aliasing between objects)",
+    "dict/list iteration is in insertion order; containers and numpy arrays are values: what is stored in a field is owned by its object (no aliasing between objects; a local name for a container of an object is followed); sharing of one dict / array buffer between objects is only covered by the native stand-ins",
     "logger calls and ErrorLogger wrappers have no effect on program state (exceptions propagate unchanged)",
     "class families are disjoint: no object is at once a slot (IInput/IOutput), a component, an Info or a grid; otherwise the class hierarchy is open (user subclasses are only constrained by the interface contracts)",
 ]
